@@ -70,13 +70,16 @@ void fmt_render(const fcase_t *c, char *out, size_t n) {
     out[0] = 0;
     for (i = 0; i < c->nd; i++) {
         const fdir_t *d = &c->d[i];
-        EMIT("%s", LITS[d->lit % NLITS]);
+        if (d->lit == LIT_LONG) { int q; for (q = 0; q < 4100 && k + 1 < n; q++) out[k++] = ' '; out[k < n ? k : n - 1] = 0; } /* pushes what follows beyond offset 4096 */
+        else EMIT("%s", LITS[d->lit % NLITS]);
         for (j = 0; j < d->esc; j++) EMIT("%%%%");
         if (d->conv == '%') { EMIT("%%%%"); continue; }
         if (d->conv == 'N') { EMIT("%%%%n"); continue; }
         if (d->conv == '[') { EMIT("%%[x"); continue; } /* printf: an unknown conversion, printed literally by libc */
         EMIT("%%");
         if (positional) EMIT("%d$", ++ai);
+        if (d->flags & 32) EMIT("I");   /* glibc extensions a pre-scan has to know about */
+        if (d->flags & 64) EMIT("'");
         if (g_fent[c->ent].kind == FK_SCANF) { if (d->suppress && !positional) EMIT("*"); }
         else {
             if (d->flags & 1) EMIT("-");
@@ -174,7 +177,7 @@ void fmt_run(const fcase_t *c, fres_t *x, int want_ref, int guard) {
     aval_t av[4 + 3 * FMAXD];
     int nfixed = 0, n = 0, i, nblk = 0;
     ffi_arg rc = 0;
-    static wchar_t wfmt[512];
+    static wchar_t wfmt[FMT_MAXLEN];
     static char inbuf[64];
     static wchar_t winbuf[64];
     FILE *stream = NULL, *saved = NULL;
@@ -287,7 +290,7 @@ void fmt_run(const fcase_t *c, fres_t *x, int want_ref, int guard) {
     }
 
     /* fixed arguments */
-    if (e->wide) widen(x->fmt, wfmt, 512);
+    if (e->wide) widen(x->fmt, wfmt, FMT_MAXLEN);
     if (e->kind == FK_PRINTF && e->sink == SK_BUF) {
         size_t w = e->wide ? 4 : 1;
         size_t need = (x->ref_len >= 0) ? (size_t)x->ref_len + 1 : 64;
@@ -401,6 +404,7 @@ void fmt_gen_dir(cs_t *cs, fdir_t *d, int kind, int allow_n, int floats, int wid
         if (cs_range(cs, 0, 3) == 0) d->width = (int16_t)cs_range(cs, 1, 5);
         if (d->conv != 'n' && d->conv != '%' && d->conv != 'N' && cs_range(cs, 0, 7) == 0) d->suppress = 1;
         if (d->conv == 'n' || d->conv == 'N') d->esc = (uint8_t)cs_range(cs, 0, 2);
+        if (d->conv == 'n' && cs_range(cs, 0, 7) == 0) d->flags |= cs_range(cs, 0, 1) ? 32 : 64;
         return;
     }
     if (allow_n && k < 7) d->conv = 'n';
@@ -419,15 +423,18 @@ void fmt_gen_dir(cs_t *cs, fdir_t *d, int kind, int allow_n, int floats, int wid
     {
         long w = cs_range(cs, 0, 9);
         if (w < 4) d->width = -1;
-        else if (w < 8) d->width = (int16_t)cs_range(cs, 1, 40);
+        else if (w < 7) d->width = (int16_t)cs_range(cs, 1, 40);
+        else if (w < 8) d->width = (int16_t)cs_range(cs, 100, 300); /* beyond internal staging buffers (64, 128, 256 characters) */
         else { d->width = -2; d->wstar = (int16_t)cs_range(cs, -12, 40); }
         w = cs_range(cs, 0, 9);
         if (w < 5) d->prec = -1;
-        else if (w < 8) d->prec = (int16_t)cs_range(cs, 0, 40);
+        else if (w < 7) d->prec = (int16_t)cs_range(cs, 0, 40);
+        else if (w < 8) d->prec = (int16_t)cs_range(cs, 100, 260);
         else { d->prec = -2; d->pstar = (int16_t)cs_range(cs, -3, 40); }
     }
     if (strchr("diuxXon", d->conv)) d->len = (uint8_t)cs_range(cs, 0, 7);
     else if (strchr("fFeEgG", d->conv)) d->len = cs_range(cs, 0, 3) == 0 ? LEN_BIGL : LEN_NONE;
     if (d->conv == 'c' || d->conv == 'C') { d->prec = -1; d->flags &= 1; }
+    if (allow_n && d->conv == 'n' && cs_range(cs, 0, 7) == 0) d->flags |= cs_range(cs, 0, 1) ? 32 : 64;
     if (d->conv == 's' || d->conv == 'S') d->flags &= 1;
 }
